@@ -107,6 +107,27 @@ func cmdReplay(args []string) {
 	if err != nil {
 		die(2, "%v", err)
 	}
+	var probe struct {
+		Kind string `json:"kind"`
+	}
+	_ = json.Unmarshal(b, &probe)
+	if probe.Kind == "sweep" {
+		var sr SweepReplay
+		if err := json.Unmarshal(b, &sr); err != nil {
+			die(2, "replay file: %v", err)
+		}
+		again, info := RunSweepReplay(&sr)
+		if again {
+			fmt.Printf("DISAGREES kind=sweep rules=%v (facts reproduced)\n  %s\n", sr.Rules, info)
+			os.Exit(1)
+		}
+		fmt.Println("AGREES (recorded facts did not reproduce)\n  " + info)
+		return
+	}
+	if h, ok := replayKinds[probe.Kind]; ok {
+		h(b)
+		return
+	}
 	var r Replay
 	if err := json.Unmarshal(b, &r); err != nil {
 		die(2, "replay file: %v", err)
@@ -147,3 +168,6 @@ func main() {
 }
 
 var commands = map[string]func([]string){}
+
+// replayKinds: re-execution handlers for the other kinds of replay records
+var replayKinds = map[string]func([]byte){}
